@@ -311,3 +311,174 @@ def twin_unknown(s: str) -> bool:
     post: not _
     """
     return True
+
+
+# -- the same acceptance rule through the public curve API (two requests) -------
+import numpy as _np  # noqa: E402
+import nanite as _nanite  # noqa: E402
+
+
+def _curve():
+    z = _np.zeros(3)
+    return _nanite.Indentation(
+        data={"force": z.copy(), "height (measured)": z.copy(), "tip position": z.copy(), "time": z.copy(),
+              "segment": _np.zeros(3, dtype=_np.uint8)},
+        metadata={"path": "/x.jpk-force", "enum": 0, "point count": 3, "imaging mode": "force-distance",
+                  "spring constant": 0.1})
+
+
+def curve_api_ok(idx1, idx2):
+    """apply_preprocessing(sel1) then apply_preprocessing(sel2): the second
+    request is accepted iff every step's required steps occur earlier in sel2,
+    whatever the first request was."""
+    sel1 = [IDS[i] for i in idx1]
+    sel2 = [IDS[i] for i in idx2]
+    saved = list(preproc.PREPROCESSORS)
+    preproc.PREPROCESSORS[:] = _NOOPS
+    try:
+        c = _curve()
+        try:
+            c.apply_preprocessing(list(sel1))
+        except ValueError:
+            pass
+        try:
+            c.apply_preprocessing(list(sel2))
+            accepted = True
+        except ValueError:
+            accepted = False
+        reported = list(c.preprocessing)
+    finally:
+        preproc.PREPROCESSORS[:] = saved
+    if accepted != apply_accepts(sel2):
+        return False
+    if accepted and reported != sel2:
+        return False
+    return True
+
+
+def curve_api_len0_0(idx1: List[int], idx2: List[int]) -> bool:
+    """
+    pre: _valid_idx(idx1, 0) and _valid_idx(idx2, 0)
+    post: _
+    """
+    return curve_api_ok(idx1, idx2)
+
+
+def curve_api_len0_1(idx1: List[int], idx2: List[int]) -> bool:
+    """
+    pre: _valid_idx(idx1, 0) and _valid_idx(idx2, 1)
+    post: _
+    """
+    return curve_api_ok(idx1, idx2)
+
+
+def curve_api_len0_2(idx1: List[int], idx2: List[int]) -> bool:
+    """
+    pre: _valid_idx(idx1, 0) and _valid_idx(idx2, 2)
+    post: _
+    """
+    return curve_api_ok(idx1, idx2)
+
+
+def curve_api_len0_3(idx1: List[int], idx2: List[int]) -> bool:
+    """
+    pre: _valid_idx(idx1, 0) and _valid_idx(idx2, 3)
+    post: _
+    """
+    return curve_api_ok(idx1, idx2)
+
+
+def curve_api_len1_0(idx1: List[int], idx2: List[int]) -> bool:
+    """
+    pre: _valid_idx(idx1, 1) and _valid_idx(idx2, 0)
+    post: _
+    """
+    return curve_api_ok(idx1, idx2)
+
+
+def curve_api_len1_1(idx1: List[int], idx2: List[int]) -> bool:
+    """
+    pre: _valid_idx(idx1, 1) and _valid_idx(idx2, 1)
+    post: _
+    """
+    return curve_api_ok(idx1, idx2)
+
+
+def curve_api_len1_2(idx1: List[int], idx2: List[int]) -> bool:
+    """
+    pre: _valid_idx(idx1, 1) and _valid_idx(idx2, 2)
+    post: _
+    """
+    return curve_api_ok(idx1, idx2)
+
+
+def curve_api_len1_3(idx1: List[int], idx2: List[int]) -> bool:
+    """
+    pre: _valid_idx(idx1, 1) and _valid_idx(idx2, 3)
+    post: _
+    """
+    return curve_api_ok(idx1, idx2)
+
+
+def curve_api_len2_0(idx1: List[int], idx2: List[int]) -> bool:
+    """
+    pre: _valid_idx(idx1, 2) and _valid_idx(idx2, 0)
+    post: _
+    """
+    return curve_api_ok(idx1, idx2)
+
+
+def curve_api_len2_1(idx1: List[int], idx2: List[int]) -> bool:
+    """
+    pre: _valid_idx(idx1, 2) and _valid_idx(idx2, 1)
+    post: _
+    """
+    return curve_api_ok(idx1, idx2)
+
+
+def curve_api_len2_2(idx1: List[int], idx2: List[int]) -> bool:
+    """
+    pre: _valid_idx(idx1, 2) and _valid_idx(idx2, 2)
+    post: _
+    """
+    return curve_api_ok(idx1, idx2)
+
+
+def curve_api_len2_3(idx1: List[int], idx2: List[int]) -> bool:
+    """
+    pre: _valid_idx(idx1, 2) and _valid_idx(idx2, 3)
+    post: _
+    """
+    return curve_api_ok(idx1, idx2)
+
+
+def curve_api_len3_0(idx1: List[int], idx2: List[int]) -> bool:
+    """
+    pre: _valid_idx(idx1, 3) and _valid_idx(idx2, 0)
+    post: _
+    """
+    return curve_api_ok(idx1, idx2)
+
+
+def curve_api_len3_1(idx1: List[int], idx2: List[int]) -> bool:
+    """
+    pre: _valid_idx(idx1, 3) and _valid_idx(idx2, 1)
+    post: _
+    """
+    return curve_api_ok(idx1, idx2)
+
+
+def curve_api_len3_2(idx1: List[int], idx2: List[int]) -> bool:
+    """
+    pre: _valid_idx(idx1, 3) and _valid_idx(idx2, 2)
+    post: _
+    """
+    return curve_api_ok(idx1, idx2)
+
+
+def curve_api_len3_3(idx1: List[int], idx2: List[int]) -> bool:
+    """
+    pre: _valid_idx(idx1, 3) and _valid_idx(idx2, 3)
+    post: _
+    """
+    return curve_api_ok(idx1, idx2)
